@@ -205,12 +205,22 @@ def run_contract(case, ctx):
         nexp = abs(tmax - t0) / abs(dt0) if dt0 != 0 else 0
         limit[0] = int(60 * nexp + 4000)
         where = "call %d (%s, eft=%d, t0=%r, tmax=%r, dt=%r, %s)" % (ci, mode, eft, t0, tmax, dt0, fam)
+        bs_floor = fam == "bs" and sim.ri_bs.min_dt > 0
         try:
             sim.integrate(tmax, exact_finish_time=eft)
         except (rebound.Escape, rebound.Encounter, rebound.Collision, rebound.NoParticles, rebound.GenericError,
                 RuntimeError) as e:
+            if bs_floor and isinstance(e, (rebound.GenericError, RuntimeError)) and "min_dt" in str(e):
+                # BS cannot meet its tolerances at the user's min_dt: giving up with an error is a legitimate
+                # outcome (retrying the same step forever is not)
+                ctx.cls("bs_min_dt_error")
+                return
             raise Violation("integrate raised %s although no exit condition is configured; %s" % (type(e).__name__, where))
         st_ = sim._status
+        if len(log) > limit[0] and bs_floor and ctx.finding_open("C08-bs-min-dt-stall") and \
+                rb.dbits(log[-1][0]) == rb.dbits(log[-200][0]) and rb.dbits(abs(log[-1][1])) == rb.dbits(sim.ri_bs.min_dt):
+            ctx.excluded("C08-bs-min-dt-stall")     # BS retries a rejected step of size min_dt forever
+            return
         if len(log) > limit[0] and mode0_fragile(cfg):
             ctx.skip("ias15 adaptive_mode=0 step collapse (documented limitation)")
             return
